@@ -74,6 +74,14 @@ func (u *unaryNegation) Next(ctx context.Context) ([]model.StepVector, error) {
 	default:
 	}
 
+	// The workers are started when the series are loaded. Do that here as well,
+	// since Series() might never be called on this operator.
+	var loadErr error
+	u.once.Do(func() { loadErr = u.loadSeries(ctx) })
+	if loadErr != nil {
+		return nil, loadErr
+	}
+
 	in, err := u.next.Next(ctx)
 	if err != nil {
 		return nil, err
